@@ -416,7 +416,8 @@ def handler_faults(sl):
 # ------------------------------------------------------------------------------------------------------------------
 def forwarding(sl):
     kind = sl["kind"]
-    fail = actor.BenchmarkFailure("boom", "cause")
+    # failures raised by actor.no_retry carry only a message (no cause); explicit ones carry the exception
+    fail = actor.BenchmarkFailure("boom", [None, RuntimeError("cause"), ""][concrete(fresh_int("failure_cause_none_exception_empty", 0, 2))])
     if kind.startswith("worker"):
         s = c01.materialise("seq2x2", (0, False, (("run", concrete(fresh_int("row", 0, 0)), bool(fresh_bool("run_finished")), False, None), ("wait", 0, False, False, None))))
         k = s.D.workers[0].addressDetails
@@ -468,6 +469,10 @@ def forwarding(sl):
             observe("cancelled flag set", s.co.cancelled)
         else:
             observe("error flag set", s.co.error)
+            with rc_env(s):
+                s.co.on_benchmark_complete(None)
+            observe("a BenchmarkComplete that still arrives afterwards publishes no results",
+                    not ({"calculate_results", "store_race", "store_results", "summarize"} & set(s.co.calls)))
         observe("never Success", not any(x[1] == "Success" for x in out))
     core.trace("kind", kind)
 
